@@ -121,28 +121,37 @@ def add_defaults(rng, text, fmt):
 class Plan:
     """one driver job = one builder program (+ the programs of its direct nested builders)"""
 
-    def __init__(self, sid, lang, builder, calls, kind):
+    def __init__(self, sid, lang, builder, calls, kind, ctor=None):
         self.sid, self.lang, self.builder, self.calls, self.kind = sid, lang, builder, calls, kind
+        self.ctor = ctor or []          # constructor arguments (ARGs)
         # calls: [{"opt": option JSON, "args": [ARG], "facts": set, "want": str}]
         self.result = None
         self.subs = []        # per call: list of driver results of the direct nested programs (in order)
 
     def program(self):
         b = self.builder
-        return {"pkg": b["For"]["SelfRef"]["ReferredPkg"], "name": b["Name"], "ctor": [],
+        return {"pkg": b["For"]["SelfRef"]["ReferredPkg"], "name": b["Name"], "ctor": list(self.ctor),
                 "calls": [(c["opt"]["Name"], c["args"]) for c in self.calls]}
 
     def payload(self, batch):
         s = batch.schemas[self.sid]
         return {"fmt": s["fmt"], "pkg": self.sid, "schema_text": s["text"], "veneers": s["veneers"], "lang": self.lang,
+                "extra_inputs": s.get("extra_inputs") or [], "passes": s.get("passes") or [],
                 "program": gb.prog_to_json(self.program()), "kind": self.kind,
                 "wants": [c["want"] for c in self.calls]}
 
 
 def plan_builder(rng, ag, ir, sid, lang, b, thorough):
-    plans = [Plan(sid, lang, b, [], "default")]
-    if ((b.get("Constructor") or {}).get("Args")):
-        return []            # constructor arguments (promote_to_constructor) are not generated here
+    def ctor_args():
+        out = []
+        for a in (b.get("Constructor") or {}).get("Args") or []:
+            x, _ = ag.gen(a["Type"], "valid")
+            out.append(x)
+        return out
+    try:
+        plans = [Plan(sid, lang, b, [], "default", ctor=ctor_args())]
+    except gb.Unsupported:
+        return []
     opts = b.get("Options") or []
     for o in opts:
         args = o.get("Args") or []
@@ -163,7 +172,7 @@ def plan_builder(rng, ag, ir, sid, lang, b, thorough):
                     facts |= f
             except gb.Unsupported:
                 continue
-            plans.append(Plan(sid, lang, b, [{"opt": o, "args": vals, "facts": facts, "want": w}], "single"))
+            plans.append(Plan(sid, lang, b, [{"opt": o, "args": vals, "facts": facts, "want": w}], "single", ctor=ctor_args()))
     usable = [o for o in opts]
     for _ in range(3 if thorough else 1):
         if not usable:
@@ -180,7 +189,7 @@ def plan_builder(rng, ag, ir, sid, lang, b, thorough):
             except gb.Unsupported:
                 continue
         if len(calls) >= 2:
-            plans.append(Plan(sid, lang, b, calls, "sequence"))
+            plans.append(Plan(sid, lang, b, calls, "sequence", ctor=ctor_args()))
     return plans
 
 
@@ -212,7 +221,7 @@ def py_obs_term(r, steps, fields_of):
 
 
 # ---------------------------------------------------------------------------------------------- the property on real output
-def judge(plan, ir, defaults, fields_of, verdict_cb):
+def judge(plan, ir, defaults, fields_of, verdict_cb, scenario=None):
     """evaluate the property on the real output of one plan; verdict_cb(sig, detail)"""
     r = plan.result
     lang = plan.lang
@@ -248,6 +257,31 @@ def judge(plan, ir, defaults, fields_of, verdict_cb):
             if not gb.same(cur, asg["Value"]["Constant"]):
                 verdict_cb({"lang": lang, "law": "constants_present", "cause": "constant-missing"},
                            "constant %r at %s, observed %r" % (asg["Value"]["Constant"], ".".join(names), cur))
+                break
+    # ---- scenario knowledge that does not come from the builder IR: an option merged under a path writes the
+    #      field it is named after, below that path
+    if scenario is not None and scenario.get("shape") == "deep-merge" and len(plan.calls) == 1 and ok_call and states \
+            and not plan.calls[0]["facts"] and plan.builder["Name"] == "Root":
+        c0 = plan.calls[0]
+        under = scenario["veneers"]["builders"][0]["merge_into"]["under_path"].split(".")
+        if len(c0["args"]) == 1 and "v" in c0["args"][0] and len((c0["opt"].get("Assignments") or [{}])[0].get("Path") or []) > 1:
+            cur = states[-1]
+            for n in under + [c0["opt"]["Name"]]:
+                cur = cur.get(n) if isinstance(cur, dict) else None
+            if not gb.same(cur, c0["args"][0]["v"]):
+                verdict_cb({"lang": lang, "law": "option_sets_exactly_target", "cause": "merged-option-writes-another-field"},
+                           "option %s merged under %s: that field holds %r after the call with %r"
+                           % (c0["opt"]["Name"], ".".join(under), cur, c0["args"][0]["v"]))
+    # ---- constants the SCHEMA fixes (independently of the builder IR): a field that is a constant, or a required
+    #      non-nullable reference to a constant object of any package, holds that constant in every state
+    for g, cval in schema_constants(ir, plan.builder).items():
+        if any(p.split(".")[0] == g for c in plan.calls for p in gb.assigned_prefixes(c["opt"])):
+            continue
+        for st in states:
+            cur = st.get(g) if isinstance(st, dict) else None
+            if not gb.same(cur, cval):
+                verdict_cb({"lang": lang, "law": "constants_present", "cause": "schema-constant-missing-or-wrong"},
+                           "field %s is the constant %r in the schema, observed %r" % (g, cval, cur))
                 break
     facts = set().union(*[c["facts"] for c in plan.calls]) if plan.calls else set()
     hard = facts & {"bound", "elem", "alias"}
@@ -303,6 +337,22 @@ def judge(plan, ir, defaults, fields_of, verdict_cb):
             verdict_cb({"lang": lang, "law": "invalid_reported", "cause": cause}, "no exception raised")
 
 
+def schema_constants(ir, b):
+    out = {}
+    t = b["For"]["Type"]
+    if t["Kind"] == "ref":
+        t = ir.resolve(t)
+    for f in ((t.get("Struct") or {}).get("Fields") or []):
+        ft = f["Type"]
+        if ft["Kind"] == "scalar" and (ft.get("Scalar") or {}).get("Value") is not None:
+            out[f["Name"]] = ft["Scalar"]["Value"]
+        elif ft["Kind"] == "ref" and f.get("Required") and not ft.get("Nullable"):
+            rt = ir.resolve(ft)
+            if rt["Kind"] == "scalar" and (rt.get("Scalar") or {}).get("Value") is not None:
+                out[f["Name"]] = rt["Scalar"]["Value"]
+    return out
+
+
 def first_diff(a, b, path=""):
     if isinstance(a, gb.Env):
         for k, v in a.fields.items():
@@ -341,11 +391,13 @@ def run(ctx, verdict, replay=None, model_ok=True):
     rng = ctx.rng
     thorough = ctx.tier == "thorough"
     batch = gb.BldBatch(ctx, "c09")
+    scen = {}          # sid -> targeted scenario
     replay_plans = []
     if replay:
         rp = json.load(open(replay))
         job = rp.get("job") or rp["first_mismatch"]["job"]
-        batch.add({"pkg": job["pkg"], "root": "Root", "defs": []}, job["fmt"], veneers=job["veneers"], text=job["schema_text"])
+        batch.add({"pkg": job["pkg"], "root": "Root", "defs": []}, job["fmt"], veneers=job["veneers"], text=job["schema_text"],
+                  extra_inputs=[tuple(x) for x in job.get("extra_inputs") or []], passes=job.get("passes") or None)
         replay_plans.append(job)
     else:
         n = 200 if thorough else 120
@@ -363,7 +415,9 @@ def run(ctx, verdict, replay=None, model_ok=True):
         # constant side-assignment (add_assignment), per-branch appending options of a list of a union
         for rep in range(3 if thorough else 1):
             for sc in gb.scenarios(rng, prefix="t%d" % rep):
-                batch.add(srcgen.project(sc["schema"], sc["fmt"]), sc["fmt"], veneers=sc["veneers"])
+                sid_ = batch.add(srcgen.project(sc["schema"], sc["fmt"]), sc["fmt"], veneers=sc["veneers"],
+                                 extra_inputs=sc.get("extra_inputs"), passes=sc.get("passes"))
+                scen[sid_] = sc
     batch.generate()
     batch.build_go_driver()
     gen_hist = {}
@@ -373,6 +427,14 @@ def run(ctx, verdict, replay=None, model_ok=True):
     ctx.log("cog ran on %d schemas: %s; %d Go packages do not compile, %d needed an unused import removed"
             % (len(batch.schemas), gen_hist, len(batch.compile_errors), len(batch.import_fixups)))
 
+    # a targeted scenario whose generated Go does not compile: there is no builder to call at all
+    for sid_ in sorted(set(scen) & set(batch.compile_errors)):
+        s_ = batch.schemas[sid_]
+        verdict.propfail({"lang": "go", "law": "builders_compile", "cause": "scenario-" + scen[sid_]["shape"]},
+                         {"job": {"fmt": s_["fmt"], "pkg": sid_, "schema_text": s_["text"], "veneers": s_["veneers"], "lang": "go",
+                                  "extra_inputs": s_.get("extra_inputs") or [], "passes": s_.get("passes") or [],
+                                  "program": {"pkg": sid_, "name": "Root", "ctor": [], "calls": []}, "kind": "default", "wants": []},
+                          "observed": batch.compile_errors[sid_][:1500]})
     # ---- defaults of every struct object, per language
     irs, defaults_g, defaults_p, fields_of, djobs = {}, {}, {}, {}, {"go": [], "python": []}
     gen_ok = [s for s in batch.schemas if batch.gen[s]["status"] == "OK"]
@@ -426,7 +488,7 @@ def run(ctx, verdict, replay=None, model_ok=True):
                 calls.append({"opt": o, "args": args, "facts": set() if w == "valid" else {w if w in ("bound", "elem", "alias") else "nested"},
                               "want": w})
             if calls is not None:
-                plans.append(Plan(job["pkg"], lang, b, calls, job.get("kind", "single")))
+                plans.append(Plan(job["pkg"], lang, b, calls, job.get("kind", "single"), ctor=prog["ctor"]))
     else:
         cap = 90 if thorough else 45
         for (sid, lang), ir in sorted(irs.items()):
@@ -482,7 +544,8 @@ def run(ctx, verdict, replay=None, model_ok=True):
         if key not in env_defs:
             env_defs[key] = gb.env_def(p.sid, p.lang, batch.lang(p.sid, p.lang), defaults_g.get((p.sid, p.lang), []))
         prog = p.program()
-        head = "(env_%s, (%s, %s), [], %s, " % (key, srcgen.g_str(prog["pkg"]), srcgen.g_str(prog["name"]), gb.gallina_calls(prog["calls"]))
+        head = "(env_%s, (%s, %s), %s, %s, " % (key, srcgen.g_str(prog["pkg"]), srcgen.g_str(prog["name"]),
+                                                gencode.g_list(gb.gallina_arg(a) for a in prog["ctor"]), gb.gallina_calls(prog["calls"]))
         if p.lang == "go":
             cases_go.append((key, head + go_obs_term(p.result, True) + ")"))
             idx_go.append(i)
@@ -517,7 +580,8 @@ def run(ctx, verdict, replay=None, model_ok=True):
     order = sorted(live, key=lambda i: len(json.dumps(plans[i].payload(batch)["program"])))
     for i in order:
         p = plans[i]
-        judge(p, irs[(p.sid, p.lang)], defaults_p.get((p.sid, p.lang), {}), fields_of.get((p.sid, p.lang)), report(i))
+        judge(p, irs[(p.sid, p.lang)], defaults_p.get((p.sid, p.lang), {}), fields_of.get((p.sid, p.lang)), report(i),
+              scenario=scen.get(p.sid))
     for i in dead[:3]:
         verdict.propfail({"lang": plans[i].lang, "law": "valid_never_fails", "cause": "driver-process-died"},
                          {"job": plans[i].payload(batch), "observed": "driver process died or timed out"})
